@@ -52,7 +52,16 @@ func (vc *VC) memWF(name, ver, wm string) string {
 		return ""
 	}
 	if _, isMapMem := vc.enc.mapMemSorts[name]; isMapMem {
-		return ""
+		// values stored in maps are well formed too (pointers refer to allocated objects, slice headers are sane)
+		mt, isMap := t.(*types.Map)
+		if !isMap || !strings.HasPrefix(name, "MV_") {
+			return ""
+		}
+		wf := vc.enc.wellFormed(fmt.Sprintf("(select (select %s m) k)", ver), mt.Elem(), wm)
+		if wf == "true" {
+			return ""
+		}
+		return fmt.Sprintf("\n(assert (forall ((m Int) (k %s)) (! %s :pattern ((select (select %s m) k)))))", vc.enc.sortOf(mt.Key()), wf, ver)
 	}
 	wf := vc.enc.wellFormed(fmt.Sprintf("(select %s p)", ver), t, wm)
 	if wf == "true" {
